@@ -158,6 +158,19 @@ def gen_threads_text():
                '  if scaled then\n    let sample_size := IZR sample_size_Z in\n'
                f'    if Reqb sample_size 0%R then None else Some {scaled_cells}\n'
                f'  else Some {plain_cells}.\n')
+    # ---- change_init_values: how the vector of current values follows the new values (fail-closed shape)
+    fd = tr.find('BIOGEME.change_init_values')
+    need([a.arg for a in fd.args.args] == ['self', 'betas'], 'change_init_values: signature changed')
+    loops = [s_ for s_ in fd.body if isinstance(s_, ast.For)]
+    need(len(loops) == 2 and U(loops[0]).replace('\n', ' ').split() == 'for _, f in self.formulas.items(): f.change_init_values(betas)'.split(),
+         'change_init_values: the formulas are not all given the new values')
+    lp = loops[1]
+    need(U(lp.target).strip('()') == 'i, name' and U(lp.iter) == 'enumerate(self.id_manager.free_betas.names)' and len(lp.body) == 2
+         and U(lp.body[0]) == 'value = betas.get(name)' and isinstance(lp.body[1], ast.If) and U(lp.body[1].test) == 'value is not None'
+         and not lp.body[1].orelse and [U(x) for x in lp.body[1].body] == ['self.id_manager.free_betas_values[i] = value'],
+         'change_init_values: the vector of current values is not updated with every value given (test must be `value is not None`)')
+    out.append(f'(* from src/biogeme/biogeme.py:{lp.lineno} BIOGEME.change_init_values (update of id_manager.free_betas_values) *)\n'
+               'Definition changed_value (old : R) (value : option R) : R :=\n  match value with Some v => v | None => old end.\n')
     return ''.join(out)
 
 
@@ -1050,6 +1063,185 @@ def gen_bootstrap_case(rng, i, fault=False, panel=False):
     return c
 
 
+# ---------------------------------------------------------------------------------------- histories on one object
+def gen_history_case(rng, i, klass='generic'):
+    n = rng.randint(4, 20)
+    model = rng.choice([1, 2, 2, 3])
+    names = [f'b{k + 1}' for k in range(model)]
+
+    def point(zero_prob=0.3):
+        return {k: (0 if rng.random() < zero_prob else rng.choice([-1, 1]) * rng.randint(1, 32)) for k in names}
+
+    c = {'kind': 'history', 'id': f'hist{i}', 'class': klass, 'scale': SCALE, 'model': model,
+         'betas': {k: rng.choice([-1, 1]) * rng.randint(1, 32) for k in names},       # non-zero starting values
+         'weight': rng.choice([None, 'w', 'wexpr', 'const']), 'cols': gen_table(rng, n, model), 'T': rng.choice([1, 2, 3, 0])}
+    if c['weight'] == 'const':
+        c['wconst'] = rng.choice([8, 24, 40])
+    c['points'] = [point() for _ in range(rng.randint(2, 4))]
+    npt = len(c['points'])
+    steps = []
+    if klass == 'shared-parameters':
+        c['shared'] = True
+        c['T'] = rng.choice([4, 8, n])
+        steps = [{'op': 'like', 'pt': 0, 'scaled': False}, {'op': 'other', 'T': rng.choice([1, 2, 3])}, {'op': 'sim', 'pt': 0},
+                 {'op': 'like', 'pt': 0, 'scaled': False}, {'op': 'derivs', 'pt': 1, 'scaled': False, 'hessian': True, 'bhhh': True},
+                 {'op': 'other', 'T': rng.choice([n + 2, 16])}, {'op': 'sim', 'pt': 1}, {'op': 'like', 'pt': 1, 'scaled': True}]
+    elif klass == 'threads-after-derivatives':
+        c['T'] = rng.choice([1, 2, 3])
+        steps = [{'op': 'derivs', 'pt': 0, 'scaled': False, 'hessian': True, 'bhhh': True},
+                 {'op': 'threads', 'T': rng.choice([c['T'] + 1, 8, 16, 0])}, {'op': 'like', 'pt': 0, 'scaled': False},
+                 {'op': 'derivs', 'pt': 1, 'scaled': False, 'hessian': True, 'bhhh': True}, {'op': 'sim', 'pt': 1}]
+    else:
+        derivs_seen = False
+        for _ in range(rng.randint(6, 11)):
+            u = rng.random()
+            if u < 0.3:
+                steps.append({'op': 'derivs', 'pt': rng.randrange(npt), 'scaled': rng.random() < 0.2,
+                              'hessian': rng.random() < 0.8, 'bhhh': rng.random() < 0.8})
+                derivs_seen = True
+            elif u < 0.4:
+                steps.append({'op': 'like', 'pt': rng.randrange(npt), 'scaled': rng.random() < 0.5})
+            elif u < 0.5:
+                steps.append({'op': 'sim', 'pt': rng.randrange(npt)})
+            elif u < 0.75:
+                # new values for some of the parameters, exact zeros among them; then the likelihood at the current values
+                sub = [k for k in names if rng.random() < 0.7] or [names[0]]
+                steps.append({'op': 'change', 'values': {k: (0 if rng.random() < 0.5 else rng.choice([-1, 1]) * rng.randint(1, 32)) for k in sub}})
+                steps.append({'op': 'init'})
+            elif u < 0.85:
+                steps.append({'op': 'random', 'seed': rng.randint(1, 10 ** 6), 'bound': rng.choice([100.0, 2.0, 1.0])})
+                steps.append({'op': 'init'})
+            elif u < 0.95:
+                if not derivs_seen:          # (raising the count after a derivatives call: class threads-after-derivatives)
+                    steps.append({'op': 'threads', 'T': rng.choice([1, 2, 3, n, n + 3, 0])})
+            else:
+                steps.append({'op': 'init'})
+        if rng.random() < 0.25 and n >= 12 and model <= 2:
+            steps.append({'op': 'change', 'values': {k: 0 for k in names if rng.random() < 0.6}})
+            steps.append({'op': 'estimate'})
+            steps.append({'op': 'init'})
+    c['steps'] = steps
+    return c
+
+
+def check_history(ctx, c, r, st):
+    klass = c.get('class', 'generic')
+    key = f'C04/history/{klass}'
+    wit = witness(c, points=c['points'], T=c['T'], steps=c['steps'], shared_parameters=bool(c.get('shared')),
+                  history='one BIOGEME object built with number_of_threads=T; steps in order; every kept result re-read at the end')
+    wit['class'] = klass
+    if r is None or 'crash' in r or 'runner' in r:
+        ctx.violation(key + '/crash', 'the process died during a history of calls on one BIOGEME object', wit, 'results', r, HOW)
+        return
+    n = r['n']
+    if 'build' in r:
+        ctx.violation(key + '/exception', 'BIOGEME could not be built: ' + str(r['build'])[:200], wit, 'an object', r['build'], HOW)
+        return
+    bases = []
+    for j, p in enumerate(r['points']):
+        b = Base(c, val(p)['sim'], val(p)) if p['ok'] else None
+        if b is None or not b.ok or b.n != n:
+            ctx.violation(key + '/exception', f'per-observation values at point {j} unavailable', wit, 'values', p if not p['ok'] else b.why, HOW)
+            return
+        bases.append(b)
+    cpu = None
+    current = {k: Fraction(v, c['scale']) for k, v in c['betas'].items()}     # model of the object's current values
+    known = True
+
+    def vec_ok(base, what, obs_raw, div):
+        exv, abv, m = base.exact(what, range(n))
+        obs = Fl(obs_raw)
+        if obs is None or len(obs) != len(exv):
+            return False
+        for o, e, a in zip(obs, exv, abv):
+            if abs(o - e / div) > sum_bound(n, a, m) / div + 2 * U53 * abs(e / div):
+                return False
+        return True
+
+    def check_derivs(base, stp, d):
+        div = n if stp['scaled'] else 1
+        bad = [nm for what, nm, on in (('f', 'function', True), ('g', 'gradient', True), ('h', 'hessian', stp['hessian']), ('b', 'bhhh', stp['bhhh']))
+               if on and not vec_ok(base, what, [d['f']] if what == 'f' else d[what], div)]
+        return bad
+
+    for i, (stp, res) in enumerate(zip(c['steps'], r['steps'])):
+        op = stp['op']
+        st.record({'id': c['id'], 'step': i, 'op': stp, 'h': hash_cols(c), 'class': klass}, nontrivial=i > 0)
+        where = f'step {i} ({op})'
+        if not res['ok']:
+            ctx.violation(key + '/exception', f'{where} raised: {res.get("exc")}: {res.get("msg")}', wit, 'a value', res, HOW)
+            return
+        v = res['v']
+        if op == 'derivs':
+            base = bases[stp['pt']]
+            bad = check_derivs(base, stp, v)
+            if bad:
+                ctx.violation(key + '/derivatives', f'{where} at point {stp["pt"]}: {bad} not the weighted sums of the per-row values at that point',
+                              wit, None, v, HOW)
+                return
+            fin = r['final'].get(str(i))
+            if fin is None or not fin['ok'] or check_derivs(base, stp, fin['v']):
+                ctx.violation(key + '/result-overwritten', f'{where}: the result returned for point {stp["pt"]} was right when returned but '
+                              f'{check_derivs(base, stp, fin["v"]) if fin and fin["ok"] else "unreadable"} no longer hold(s) the sums at that point after the later calls',
+                              wit, v, fin, HOW)
+                return
+        elif op == 'like':
+            base = bases[stp['pt']]
+            if not vec_ok(base, 'f', [v], n if stp['scaled'] else 1):
+                exv, _, _ = base.exact('f', range(n))
+                ctx.violation(key + '/total', f'{where} at point {stp["pt"]}: not the weighted sum of the per-row values' + (' / N' if stp['scaled'] else ''),
+                              wit, to_float(exv[0] / (n if stp['scaled'] else 1)), v, HOW)
+                return
+        elif op == 'sim':
+            base = bases[stp['pt']]
+            for tag, sm in (('returned', v), ('re-read at the end', (r['final'].get(str(i)) or {}).get('v'))):
+                own = Base(c, sm, None)
+                if not own.ok or own.n != n or any(abs(a - b) > 4 * U53 * abs(b) + TINY for a, b in zip(own.f + own.w, base.f + base.w)):
+                    ctx.violation(key + '/simulate', f'{where}: per-row values ({tag}) differ from those of a fresh object at point {stp["pt"]}', wit, None, sm, HOW)
+                    return
+        elif op == 'change':
+            for k, x in stp['values'].items():
+                current[k] = Fraction(x, c['scale'])
+        elif op in ('random',):
+            known = False
+        elif op in ('threads', 'other'):
+            pass
+        elif op in ('init', 'estimate'):
+            cur = {k: F(x) for k, x in v['cur'].items()}
+            if op == 'init':
+                if known and any(cur.get(k) != current[k] for k in current):
+                    ctx.violation(key + '/current-values', f'{where}: get_beta_values() is not the result of the change_init_values calls',
+                                  wit, {k: to_float(x) for k, x in current.items()}, v['cur'], HOW)
+                    return
+                vec = Fl(v['vec'])
+                if vec is None or vec != [cur[k] for k in r['free']]:
+                    ctx.violation(key + '/current-values', f'{where}: the parameter vector used for the likelihood (id_manager.free_betas_values) differs from '
+                                  'get_beta_values()', wit, v['cur'], v['vec'], HOW)
+                    # keep going: the likelihood oracle below gives the property-level witness
+            fresh = Base(c, v['sim'], None)
+            if not fresh.ok or fresh.n != n:
+                ctx.violation(key + '/simulate', f'{where}: simulate at the current values: ' + (fresh.why or 'wrong number of rows'), wit, n, None, HOW)
+                return
+            ex, ab, m = fresh.exact('f', range(n))
+            for nm in (('f', 'init') if op == 'init' else ('init',)):
+                fv = F(v[nm])
+                if fv is None or abs(fv - ex[0]) > sum_bound(n, ab[0], m):
+                    what = ('calculate_init_likelihood()' if nm == 'f' else 'the initial log likelihood kept by ' + ('the object' if op == 'init' else 'estimate()'))
+                    ctx.violation(key + '/init-likelihood', f'{where}: {what} is not the weighted sum of the values simulate reports at the current '
+                                  'values get_beta_values()', wit, {'current': {k: to_float(x) for k, x in cur.items()}, 'exact_sum': to_float(ex[0])},
+                                  v[nm], HOW)
+                    return
+            if op == 'init':
+                own = Base(c, v['own'], None)
+                if not own.ok or any(abs(a - b) > 4 * U53 * abs(b) + TINY for a, b in zip(own.f, fresh.f)):
+                    ctx.violation(key + '/simulate', f'{where}: simulate of the object differs from a fresh object at the same values', wit, None, v['own'], HOW)
+                    return
+            else:
+                known = False
+                # what the object reports at its current values AFTER estimate() is a witness class of its own
+                key = 'C04/history/after-estimate'
+
+
 # ---------------------------------------------------------------------------------------- stream ll_vs_simulate
 LL_RULE = ('generated tables (1-40 rows, dyadic cells k/16), logit log likelihood with 1-3 parameters at dyadic parameter points, weight '
            'column / weight expression / none; every table evaluated with thread counts {1,2,3,n-1,n,n+3,0=cpu count} (given through the '
@@ -1086,8 +1278,18 @@ def stream_ll(ctx, only=None, n_cases=None, with_partition=True):
         cases += [gen_panel_case(rng, i) for i in range(ctx.n(6, 60))]
         cases += [gen_bootstrap_case(rng, 100 + i, fault=True, panel=(i % 2 == 1)) for i in range(ctx.n(4, 16))]
         cases.append(gen_bootstrap_case(rng, 200, fault=False, panel=True))
+        cases += [gen_history_case(rng, i) for i in range(ctx.n(16, 200))]
+        cases += [gen_history_case(rng, 1000 + i, 'shared-parameters') for i in range(ctx.n(2, 8))]
+        cases += [gen_history_case(rng, 2000 + i, 'threads-after-derivatives') for i in range(ctx.n(2, 8))]
     t0 = time.time()
     # rethread / bootstrap cases first and in chunks of their own (a reverted fix kills the process / is slow)
+    hist = [c for c in cases if c['kind'] == 'history']
+    gen_h = [c for c in hist if c.get('class', 'generic') == 'generic']
+    oth_h = [c for c in hist if c.get('class', 'generic') != 'generic']
+    res_hist = (ctx.impl_cases('c04_ll.py', gen_h, chunk=max(1, len(gen_h) // 16 + 1), timeout=600) if gen_h else []) + \
+               (ctx.impl_cases('c04_ll.py', oth_h, chunk=1, timeout=600) if oth_h else [])
+    for c_, r_ in zip(gen_h + oth_h, res_hist):
+        check_history(ctx, c_, r_, st)
     special = [c for c in cases if c['kind'] == 'rethread'] + [c for c in cases if c['kind'] == 'bootstrap']
     tables = [c for c in cases if c['kind'] == 'table']
     nrt = sum(1 for c in special if c['kind'] == 'rethread')
@@ -1272,7 +1474,10 @@ def replay(ctx, path):
     c = {k: wit[k] for k in SPEC_KEYS + ('panel',) if k in wit}
     c['id'] = 'replay'
     parts = key.split('/')
-    if len(parts) > 1 and parts[1] == 'rethread':
+    if len(parts) > 1 and parts[1] == 'history':
+        c.update(kind='history', points=wit['points'], steps=wit['steps'], T=wit['T'], shared=wit.get('shared_parameters', False))
+        c['class'] = wit.get('class', 'generic')
+    elif len(parts) > 1 and parts[1] == 'rethread':
         c.update(kind='rethread', pairs=[[wit['old_thread_count'], wit['new_thread_count']]] if 'old_thread_count' in wit else wit.get('pairs', RETHREAD_PAIRS))
     elif len(parts) > 1 and parts[1] == 'bootstrap':
         c.update(kind='bootstrap', T=wit['T'], samples=wit['bootstrap_samples'], seed=wit['seed'])
